@@ -738,6 +738,8 @@ pub struct StaticReport {
     pub lookup_queries: u64,
     /// S4 pass 0: forked children, each with another first lookup of the process
     pub fresh_process_children: u64,
+    /// S6: character_direction queries (cold, ascending sweep, descending sweep)
+    pub direction_queries: u64,
     pub lookups_found: u64,
     /// tables where *no* row was reachable through the lookup (not attributable to ordering;
     /// reported, not gating)
@@ -1195,8 +1197,80 @@ pub fn static_checks(comp: &BTreeMap<String, Val>, rf: &Reference) -> StaticRepo
         }
     }
 
+    // S6 (round 10): the direction query answers from the tables alone, whatever was asked before.
+    // `character_direction` reads the four direction tables with `contains()` and, for a
+    // script-less identifier of a right-to-left language, the likely-subtags tables; a memo keyed
+    // too coarsely (seeded `m41`: per-thread cache keyed by the language only) makes the answer for
+    // one CLDR key the answer computed earlier for another. Every identifier of the layout data
+    // and of the likely-subtags keys that involve a listed right-to-left language is asked once
+    // cold — on a thread of its own, the first query of that thread — and then in two sweeps on one
+    // thread (ascending, descending); the three answers must agree.
+    let mut direction_queries = 0u64;
+    {
+        use unic_langid_impl::LanguageIdentifier;
+        let mut ids: BTreeSet<String> = rf.locales.keys().filter(|n| n.as_str() != "root").cloned().collect();
+        let rtl_langs: BTreeSet<String> = as_array(comp.get("LANGS_CHARACTER_DIRECTION_RTL"))
+            .unwrap_or(&[])
+            .iter()
+            .filter_map(|v| match v {
+                Val::Int(i) => decode_lang(*i).ok(),
+                _ => None,
+            })
+            .collect();
+        for ((_t, _k), text) in &rf.key_text {
+            let lang = text.split(|c| c == '-' || c == '_').next().unwrap_or("");
+            if rtl_langs.contains(lang) {
+                ids.insert(text.replace('_', "-"));
+            }
+        }
+        let parsed: Vec<(String, LanguageIdentifier)> = ids.iter().filter_map(|n| n.parse::<LanguageIdentifier>().ok().map(|l| (n.clone(), l))).collect();
+        let ask = |l: &LanguageIdentifier| -> String {
+            let l = l.clone();
+            match std::panic::catch_unwind(move || format!("{:?}", l.character_direction())) {
+                Ok(s) => s,
+                Err(_) => "<panic>".to_string(),
+            }
+        };
+        let cold: Vec<String> = parsed
+            .iter()
+            .map(|(_, l)| {
+                let l = l.clone();
+                std::thread::spawn(move || match std::panic::catch_unwind(move || format!("{:?}", l.character_direction())) {
+                    Ok(s) => s,
+                    Err(_) => "<panic>".to_string(),
+                })
+                .join()
+                .unwrap_or_else(|_| "<panic>".to_string())
+            })
+            .collect();
+        let up: Vec<String> = parsed.iter().map(|(_, l)| ask(l)).collect();
+        let down: Vec<String> = {
+            let mut v: Vec<String> = parsed.iter().rev().map(|(_, l)| ask(l)).collect();
+            v.reverse();
+            v
+        };
+        direction_queries = 3 * parsed.len() as u64;
+        let mut shown = 0;
+        for (i, (name, _)) in parsed.iter().enumerate() {
+            if (cold[i] != up[i] || cold[i] != down[i]) && shown < cap {
+                shown += 1;
+                out.push(viol(
+                    "S6",
+                    "LANGS_CHARACTER_DIRECTION_RTL",
+                    "direction-depends-on-earlier-queries",
+                    name,
+                    format!(
+                        "character_direction() of {} is {} when it is the first query of a thread, {} after the identifiers before it and {} after the identifiers behind it were asked on the same thread: the answer is not determined by the bundled tables",
+                        name, cold[i], up[i], down[i]
+                    ),
+                ));
+            }
+        }
+    }
+
     StaticReport {
         violations: out,
+        direction_queries,
         rows_checked,
         ints_decoded,
         lookups: rows_tried,
